@@ -1,82 +1,355 @@
 /-
   C07 proofs (function level) over the REGENERATED refresh-token functions of both routers: client
   binding, registered grant, scope only narrowed - and, by induction over any chain, never grows.
+
+  Two layers (robustness against harmless rewrites of the Go text): per translated function ONE characterisation lemma
+  `Gen.f args = <hand-readable spec function>` proved with the shape-independent `go_leaf` / `go_char` (GoTac.lean);
+  everything else is derived from the spec functions and never unfolds a regenerated definition.
 -/
 import OidcModel.Spec.C07
 import OidcModel.Proofs.C04
+import OidcModel.GoTac
 namespace C07
 open Go Gen Hand Flow
 
 def sub (a b : List String) : Prop := ∀ s, s ∈ a → s ∈ b
+
+/-! ## hand-readable meaning of the translated functions -/
+
+/-- `ValidateRefreshTokenScopes`: no scope parameter keeps the grant; otherwise every requested scope must be granted, and the
+    grant is narrowed to the request -/
+def scopesSpec (req : List String) (r : RefreshReq) : Go.R RefreshReq :=
+  if req = [] then .ok r
+  else if ∃ s ∈ req, s ∉ r.scopes then .error "ErrInvalidScope"
+  else .ok { r with scopes := req }
+
+/-- `RefreshTokenRequestByRefreshToken`: a token the storage does not resolve is invalid_grant -/
+def byTokenSpec (st : Store) (tok : String) : Go.R RefreshReq :=
+  match st.TokenRequestByRefreshToken tok with
+  | .error _ => .error "ErrInvalidGrant"
+  | .ok r => .ok r
+
+/-- `LegacyServer.RefreshToken` (the client was verified by `withClient`) -/
+def legacyRefreshSpec (s : LegacyServer) (r : ClientRequest RefreshTokenRequest) : Go.R IssueFor :=
+  if s.provider.refreshSupported = false then .error "ErrUnsupportedGrantType"
+  else match byTokenSpec s.provider.store r.Data.RefreshToken with
+    | .error e => .error e
+    | .ok r0 =>
+      if r.Client.id ≠ r0.clientID then .error "ErrInvalidGrant"
+      else match scopesSpec r.Data.Scopes r0 with
+        | .error e => .error e
+        | .ok r1 => .ok (.refresh r1 r.Client r.Data.RefreshToken)
+
+/-- `AuthorizeRefreshClient` (Provider router): who the caller is, that its registration contains the refresh grant, and the
+    grant behind the presented token -/
+def authorizeRefreshSpec (now : Int) (req : RefreshTokenRequest) (p : Provider) : Go.R (RefreshReq × OPClient) :=
+  if req.ClientAssertionType = Const.ClientAssertionTypeJWTAssertion then
+    if p.is_JWTAuthorizationGrantExchanger = false ∨ p.pkjwtSupported = false then .error "error:auth_method private_key_jwt not supported"
+    else match AuthorizePrivateJWTKey now req.ClientAssertion p with
+      | .error e => .error e
+      | .ok c =>
+        if ValidateGrantType now c Const.GrantTypeRefreshToken = false then .error "ErrUnauthorizedClient"
+        else match byTokenSpec p.store req.RefreshToken with
+          | .error e => .error e
+          | .ok r => .ok (r, c)
+  else match p.store.GetClientByClientID req.ClientID with
+    | .error e => .error e
+    | .ok c =>
+      if ValidateGrantType now c Const.GrantTypeRefreshToken = false then .error "ErrUnauthorizedClient"
+      else if c.auth = Const.AuthMethodPrivateKeyJWT then .error "ErrInvalidClient"
+      else if c.auth = Const.AuthMethodNone then
+        (match byTokenSpec p.store req.RefreshToken with
+         | .error e => .error e
+         | .ok r => .ok (r, c))
+      else if c.auth = Const.AuthMethodPost ∧ p.postSupported = false then .error "ErrInvalidClient"
+      else match p.store.AuthorizeClientIDSecret req.ClientID req.ClientSecret with
+        | .error _ => .error "ErrInvalidClient"
+        | .ok _ =>
+          match byTokenSpec p.store req.RefreshToken with
+          | .error e => .error e
+          | .ok r => .ok (r, c)
+
+/-- `LegacyServer.VerifyClient` (Server router): who the caller is -/
+def legacyVerifySpec (now : Int) (s : LegacyServer) (r : Request ClientCredentials) : Go.R OPClient :=
+  if r.Form.Get "grant_type" = Const.GrantTypeClientCredentials then
+    if s.provider.store.is_ClientCredentialsStorage = false then .error "ErrUnsupportedGrantType"
+    else s.provider.store.ClientCredentials r.Data.ClientID r.Data.ClientSecret
+  else if r.Data.ClientAssertionType = Const.ClientAssertionTypeJWTAssertion then
+    if s.provider.is_JWTAuthorizationGrantExchanger = false ∨ s.provider.pkjwtSupported = false then .error "ErrInvalidClient"
+    else AuthorizePrivateJWTKey now r.Data.ClientAssertion s.provider
+  else match s.provider.store.GetClientByClientID r.Data.ClientID with
+    | .error _ => .error "ErrInvalidClient"
+    | .ok c =>
+      if c.auth = Const.AuthMethodNone then .ok c
+      else if c.auth = Const.AuthMethodPrivateKeyJWT then .error "ErrInvalidClient"
+      else if c.auth = Const.AuthMethodPost ∧ s.provider.postSupported = false then .error "ErrInvalidClient"
+      else match s.provider.store.AuthorizeClientIDSecret r.Data.ClientID r.Data.ClientSecret with
+        | .error _ => .error "ErrInvalidClient"
+        | .ok _ => .ok c
+
+/-- `ValidateRefreshTokenRequest` (Provider router) -/
+def validateRefreshSpec (now : Int) (req : RefreshTokenRequest) (p : Provider) : Go.R (RefreshReq × OPClient) :=
+  if req.RefreshToken = "" then .error "ErrInvalidRequest"
+  else match authorizeRefreshSpec now req p with
+    | .error e => .error e
+    | .ok (r, c) =>
+      if c.id ≠ r.clientID then .error "ErrInvalidGrant"
+      else match scopesSpec req.Scopes r with
+        | .error e => .error e
+        | .ok r1 => .ok (r1, c)
+
+/-! ## Layer 1: characterisation lemmas (the only place where regenerated definitions are unfolded) -/
+
+theorem len_zero (l : List String) : ((Go.len l) == (0 : Int)) = decide (l = []) := by
+  cases l <;> simp [Go.len, HasLen.len] <;> omega
+
+theorem any_not_contains (req granted : List String) :
+    Go.any req (fun scope => !Go.contains granted scope) = decide (∃ s ∈ req, s ∉ granted) := by
+  unfold Go.any Go.contains
+  rw [Bool.eq_iff_iff]
+  simp
+
+theorem validateRefreshTokenScopes_eq (now : Int) (req : List String) (r : RefreshReq) :
+    ValidateRefreshTokenScopes now req r = scopesSpec req r := by
+  unfold ValidateRefreshTokenScopes scopesSpec
+  simp only [len_zero, any_not_contains, RefreshReq.GetScopes, RefreshReq.SetCurrentScopes]
+  go_leaf
+
+theorem refreshByToken_eq (now : Int) (st : Store) (tok : String) :
+    RefreshTokenRequestByRefreshToken now st tok = byTokenSpec st tok := by
+  unfold RefreshTokenRequestByRefreshToken byTokenSpec
+  go_leaf
+
+theorem legacyRefreshToken_eq (now : Int) (s : LegacyServer) (r : ClientRequest RefreshTokenRequest) :
+    LegacyRefreshToken now s r = legacyRefreshSpec s r := by
+  unfold LegacyRefreshToken legacyRefreshSpec issueForRefresh NewResponse Hand.unimplementedGrantError
+  simp only [validateRefreshTokenScopes_eq, refreshByToken_eq, Provider.Storage, Provider.GrantTypeRefreshTokenSupported, OPClient.GetID,
+    RefreshReq.GetClientID]
+  go_leaf
+
+theorem authorizeRefreshClient_eq (now : Int) (req : RefreshTokenRequest) (p : Provider) :
+    AuthorizeRefreshClient now req p = authorizeRefreshSpec now req p := by
+  unfold AuthorizeRefreshClient AuthorizeClientIDSecret authorizeRefreshSpec Go.ok
+  simp only [refreshByToken_eq, Provider.Storage, Provider.AuthMethodPrivateKeyJWTSupported, Provider.AuthMethodPostSupported, OPClient.AuthMethod]
+  go_leaf
+
+theorem legacyVerifyClient_eq (now : Int) (s : LegacyServer) (r : Request ClientCredentials) :
+    LegacyVerifyClient now s r = legacyVerifySpec now s r := by
+  unfold LegacyVerifyClient AuthorizeClientIDSecret legacyVerifySpec Go.ok
+  simp only [Provider.Storage, Provider.AuthMethodPrivateKeyJWTSupported, Provider.AuthMethodPostSupported, OPClient.AuthMethod]
+  go_leaf
+
+theorem validateRefreshTokenRequest_eq (now : Int) (req : RefreshTokenRequest) (p : Provider) :
+    ValidateRefreshTokenRequest now req p = validateRefreshSpec now req p := by
+  unfold ValidateRefreshTokenRequest validateRefreshSpec
+  simp only [validateRefreshTokenScopes_eq, authorizeRefreshClient_eq, OPClient.GetID, RefreshReq.GetClientID]
+  go_leaf
+
+/-! ## Layer 2: consequences (no regenerated definition is unfolded below) -/
+
+theorem scopesSpec_ok {req : List String} {r r' : RefreshReq} (h : scopesSpec req r = .ok r') :
+    sub r'.scopes r.scopes ∧ r'.clientID = r.clientID ∧ r'.subject = r.subject ∧ r'.audience = r.audience ∧ r'.authTime = r.authTime ∧
+      r'.scopes = (if req.isEmpty then r.scopes else req) := by
+  unfold scopesSpec at h
+  by_cases h0 : req = []
+  · subst h0
+    simp only [if_true] at h
+    cases h
+    exact ⟨fun _ hs => hs, rfl, rfl, rfl, rfl, rfl⟩
+  · simp only [h0, if_false] at h
+    by_cases h1 : ∃ s ∈ req, s ∉ r.scopes
+    · simp only [h1, if_true] at h; cases h
+    · simp only [h1, if_false] at h
+      cases h
+      have hne : req.isEmpty = false := by cases req <;> simp_all
+      refine ⟨?_, rfl, rfl, rfl, rfl, by simp [hne]⟩
+      intro s hs
+      apply Classical.byContradiction
+      intro hn
+      exact h1 ⟨s, hs, hn⟩
 
 /-- scope validation only ever narrows: the result's scopes are the requested ones (a subset of the
     original) or, for an empty request, the original ones -/
 theorem validateRefreshTokenScopes_ok {now req r r'} (h : ValidateRefreshTokenScopes now req r = .ok r') :
     sub r'.scopes r.scopes ∧ r'.clientID = r.clientID ∧ r'.subject = r.subject ∧ r'.audience = r.audience ∧ r'.authTime = r.authTime ∧
       r'.scopes = (if req.isEmpty then r.scopes else req) := by
-  unfold ValidateRefreshTokenScopes at h
+  rw [validateRefreshTokenScopes_eq] at h
+  exact scopesSpec_ok h
+
+/-- a scope parameter that is not within the grant is refused -/
+theorem scopesSpec_widening {req : List String} {r : RefreshReq} (h : subset req r.scopes = false) :
+    scopesSpec req r = .error "ErrInvalidScope" := by
+  unfold scopesSpec
+  have hne : req ≠ [] := by intro he; subst he; simp [subset] at h
+  have hex : ∃ s ∈ req, s ∉ r.scopes := by
+    simp only [subset] at h
+    rw [← Bool.not_eq_true, List.all_eq_true] at h
+    apply Classical.byContradiction
+    intro hno
+    apply h
+    intro x hx
+    simp only [List.contains_eq_mem, decide_eq_true_eq]
+    apply Classical.byContradiction
+    intro hc
+    exact hno ⟨x, hx, hc⟩
+  simp only [hne, if_false, hex, if_true]
+
+theorem byTokenSpec_ok {st : Store} {tok : String} {r : RefreshReq} (h : byTokenSpec st tok = .ok r) :
+    st.TokenRequestByRefreshToken tok = .ok r := by
+  unfold byTokenSpec at h
   split at h
-  · rename_i h0
-    simp at h; subst h
-    have : req = [] := by
-      simp [Go.len, HasLen.len] at h0; exact h0
-    subst this
-    exact ⟨fun _ hs => hs, rfl, rfl, rfl, rfl, rfl⟩
-  · rename_i h0
-    split at h
-    · simp at h
-    · rename_i hany
-      simp at h; subst h
-      have hne : req.isEmpty = false := by
-        cases req <;> simp_all [Go.len, HasLen.len]
-      refine ⟨?_, rfl, rfl, rfl, rfl, by simp [RefreshReq.SetCurrentScopes, hne]⟩
-      intro s hs
-      simp only [RefreshReq.SetCurrentScopes] at hs
-      simp only [Go.any, RefreshReq.GetScopes, Go.contains, Bool.not_eq_true, List.any_eq_false, Bool.not_eq_true',
-        List.contains_eq_mem, decide_eq_false_iff_not, Decidable.not_not, List.any_eq_true, not_exists, not_and] at hany
-      have := hany s hs
-      simpa using this
+  · cases h
+  · rename_i r' hr; cases h; exact hr
 
 theorem refreshByToken_ok {now : Int} {st : Store} {tok : String} {r : RefreshReq}
     (h : RefreshTokenRequestByRefreshToken now st tok = .ok r) : st.TokenRequestByRefreshToken tok = .ok r := by
-  unfold RefreshTokenRequestByRefreshToken at h
-  split at h <;> simp_all
+  rw [refreshByToken_eq] at h
+  exact byTokenSpec_ok h
 
 /-- LegacyServer.RefreshToken: bound to the verified client, scopes only narrowed, old token handed over -/
 theorem legacyRefreshToken_ok {now s r i} (h : LegacyRefreshToken now s r = .ok i) :
     ∃ r0 r1, i = .refresh r1 r.Client r.Data.RefreshToken ∧ s.provider.refreshSupported = true ∧
       s.provider.store.TokenRequestByRefreshToken r.Data.RefreshToken = .ok r0 ∧ r.Client.id = r0.clientID ∧
       sub r1.scopes r0.scopes ∧ r1.subject = r0.subject ∧ r1.audience = r0.audience ∧ r1.authTime = r0.authTime := by
-  unfold LegacyRefreshToken issueForRefresh NewResponse at h
-  simp only [Provider.Storage, Provider.GrantTypeRefreshTokenSupported, OPClient.GetID, RefreshReq.GetClientID] at h
-  by_cases hsup : s.provider.refreshSupported = true
-  · simp only [hsup, Bool.not_true, Bool.false_eq_true, if_false] at h
-    cases hr0 : RefreshTokenRequestByRefreshToken now s.provider.store r.Data.RefreshToken with
-    | error e => simp [hr0] at h
+  rw [legacyRefreshToken_eq] at h
+  unfold legacyRefreshSpec at h
+  by_cases hsup : s.provider.refreshSupported = false
+  · simp only [hsup, if_true] at h; cases h
+  · simp only [hsup] at h
+    cases hr0 : byTokenSpec s.provider.store r.Data.RefreshToken with
+    | error e => simp only [hr0] at h; cases h
     | ok r0 =>
       simp only [hr0] at h
-      by_cases hid : (r.Client.id != r0.clientID) = true
-      · simp [hid] at h
-      · simp only [hid, Bool.false_eq_true, if_false] at h
-        cases hr1 : ValidateRefreshTokenScopes now r.Data.Scopes r0 with
-        | error e => simp [hr1] at h
+      by_cases hid : r.Client.id ≠ r0.clientID
+      · rw [if_pos hid] at h; cases h
+      · rw [if_neg hid] at h
+        cases hr1 : scopesSpec r.Data.Scopes r0 with
+        | error e => simp only [hr1] at h; cases h
         | ok r1 =>
           simp only [hr1] at h
-          simp at h; subst h
-          obtain ⟨h1, _, h3, h4, h5, _⟩ := validateRefreshTokenScopes_ok hr1
-          exact ⟨r0, r1, rfl, hsup, refreshByToken_ok hr0, by simpa using hid, h1, h3, h4, h5⟩
-  · simp [hsup] at h
+          cases h
+          obtain ⟨h1, _, h3, h4, h5, _⟩ := scopesSpec_ok hr1
+          exact ⟨r0, r1, rfl, by simpa using hsup, byTokenSpec_ok hr0, by simpa using hid, h1, h3, h4, h5⟩
+
+theorem legacyRefreshSpec_ok {s : LegacyServer} {r : ClientRequest RefreshTokenRequest} {i : IssueFor} (h : legacyRefreshSpec s r = .ok i) :
+    ∃ r0 r1, i = .refresh r1 r.Client r.Data.RefreshToken ∧ s.provider.refreshSupported = true ∧
+      s.provider.store.TokenRequestByRefreshToken r.Data.RefreshToken = .ok r0 ∧ r.Client.id = r0.clientID ∧
+      scopesSpec r.Data.Scopes r0 = .ok r1 := by
+  unfold legacyRefreshSpec at h
+  by_cases hsup : s.provider.refreshSupported = false
+  · simp only [hsup, if_true] at h; cases h
+  · simp only [hsup] at h
+    cases hr0 : byTokenSpec s.provider.store r.Data.RefreshToken with
+    | error e => simp only [hr0] at h; cases h
+    | ok r0 =>
+      simp only [hr0] at h
+      by_cases hid : r.Client.id ≠ r0.clientID
+      · rw [if_pos hid] at h; cases h
+      · rw [if_neg hid] at h
+        cases hr1 : scopesSpec r.Data.Scopes r0 with
+        | error e => simp only [hr1] at h; cases h
+        | ok r1 =>
+          simp only [hr1] at h
+          cases h
+          exact ⟨r0, r1, rfl, by simpa using hsup, byTokenSpec_ok hr0, by simpa using hid, hr1⟩
+
+/-- what the spec of `AuthorizeRefreshClient` establishes: the grant behind the token, the registered refresh grant, and HOW the
+    caller was recognised (one of the four ways) -/
+theorem authorizeRefreshSpec_ok {now : Int} {req : RefreshTokenRequest} {p : Provider} {r : RefreshReq} {c : OPClient}
+    (h : authorizeRefreshSpec now req p = .ok (r, c)) :
+    p.store.TokenRequestByRefreshToken req.RefreshToken = .ok r ∧ ValidateGrantType now c Const.GrantTypeRefreshToken = true ∧
+    ((req.ClientAssertionType = Const.ClientAssertionTypeJWTAssertion ∧ p.is_JWTAuthorizationGrantExchanger = true ∧ p.pkjwtSupported = true ∧
+        AuthorizePrivateJWTKey now req.ClientAssertion p = .ok c) ∨
+     (req.ClientAssertionType ≠ Const.ClientAssertionTypeJWTAssertion ∧ p.store.GetClientByClientID req.ClientID = .ok c ∧
+        c.auth ≠ Const.AuthMethodPrivateKeyJWT ∧
+        (c.auth = Const.AuthMethodNone ∨
+          ((c.auth = Const.AuthMethodPost → p.postSupported = true) ∧ p.store.AuthorizeClientIDSecret req.ClientID req.ClientSecret = .ok ())))) := by
+  unfold authorizeRefreshSpec at h
+  by_cases hty : req.ClientAssertionType = Const.ClientAssertionTypeJWTAssertion
+  · simp only [hty, if_true] at h
+    by_cases hsw : p.is_JWTAuthorizationGrantExchanger = false ∨ p.pkjwtSupported = false
+    · simp only [hsw, if_true] at h; cases h
+    · simp only [hsw, if_false] at h
+      cases hk : AuthorizePrivateJWTKey now req.ClientAssertion p with
+      | error e => simp only [hk] at h; cases h
+      | ok c' =>
+        simp only [hk] at h
+        by_cases hg : ValidateGrantType now c' Const.GrantTypeRefreshToken = false
+        · simp only [hg, if_true] at h; cases h
+        · simp only [hg] at h
+          cases hb : byTokenSpec p.store req.RefreshToken with
+          | error e => simp only [hb] at h; cases h
+          | ok r' =>
+            simp only [hb] at h
+            cases h
+            have h1 : p.is_JWTAuthorizationGrantExchanger = true ∧ p.pkjwtSupported = true := by
+              cases h1 : p.is_JWTAuthorizationGrantExchanger <;> cases h2 : p.pkjwtSupported <;> simp_all
+            exact ⟨byTokenSpec_ok hb, by simpa using hg, Or.inl ⟨hty, h1.1, h1.2, rfl⟩⟩
+  · simp only [hty, if_false] at h
+    cases hget : p.store.GetClientByClientID req.ClientID with
+    | error e => simp only [hget] at h; cases h
+    | ok c' =>
+      simp only [hget] at h
+      by_cases hg : ValidateGrantType now c' Const.GrantTypeRefreshToken = false
+      · simp only [hg, if_true] at h; cases h
+      · simp only [hg] at h
+        by_cases hpk : c'.auth = Const.AuthMethodPrivateKeyJWT
+        · simp only [hpk, if_true] at h; cases h
+        · simp only [hpk, if_false] at h
+          by_cases hn : c'.auth = Const.AuthMethodNone
+          · simp only [hn, if_true] at h
+            cases hb : byTokenSpec p.store req.RefreshToken with
+            | error e => simp only [hb] at h; cases h
+            | ok r' =>
+              simp only [hb] at h
+              cases h
+              exact ⟨byTokenSpec_ok hb, by simpa using hg, Or.inr ⟨hty, rfl, hpk, Or.inl hn⟩⟩
+          · simp only [hn, if_false] at h
+            by_cases hpo : c'.auth = Const.AuthMethodPost ∧ p.postSupported = false
+            · simp only [hpo, and_self, if_true] at h; cases h
+            · simp only [hpo, if_false] at h
+              cases hs : p.store.AuthorizeClientIDSecret req.ClientID req.ClientSecret with
+              | error e => simp only [hs] at h; cases h
+              | ok u =>
+                simp only [hs] at h
+                cases hb : byTokenSpec p.store req.RefreshToken with
+                | error e => simp only [hb] at h; cases h
+                | ok r' =>
+                  simp only [hb] at h
+                  cases h
+                  refine ⟨byTokenSpec_ok hb, by simpa using hg, Or.inr ⟨hty, rfl, hpk, Or.inr ⟨?_, rfl⟩⟩⟩
+                  intro hp
+                  cases hps : p.postSupported with
+                  | true => rfl
+                  | false => exact absurd ⟨hp, hps⟩ hpo
 
 theorem authorizeRefreshClient_ok {now req p r c} (h : AuthorizeRefreshClient now req p = .ok (r, c)) :
     p.store.TokenRequestByRefreshToken req.RefreshToken = .ok r ∧ Const.GrantTypeRefreshToken ∈ c.grants := by
-  unfold AuthorizeRefreshClient at h
-  simp only [Provider.Storage, Provider.AuthMethodPrivateKeyJWTSupported, Provider.AuthMethodPostSupported, OPClient.AuthMethod] at h
-  repeat' (split at h <;> try (simp at h))
-  all_goals (
-    obtain ⟨rfl, rfl⟩ := h
-    refine ⟨refreshByToken_ok (by assumption), ?_⟩
-    apply (C04.validateGrantType_iff (now := now)).1
-    simp_all)
+  rw [authorizeRefreshClient_eq] at h
+  obtain ⟨h1, h2, _⟩ := authorizeRefreshSpec_ok h
+  exact ⟨h1, (C04.validateGrantType_iff (now := now)).1 h2⟩
+
+theorem validateRefreshSpec_ok {now : Int} {req : RefreshTokenRequest} {p : Provider} {r' : RefreshReq} {c : OPClient}
+    (h : validateRefreshSpec now req p = .ok (r', c)) :
+    ∃ r, req.RefreshToken ≠ "" ∧ authorizeRefreshSpec now req p = .ok (r, c) ∧ c.id = r.clientID ∧ scopesSpec req.Scopes r = .ok r' := by
+  unfold validateRefreshSpec at h
+  by_cases ht : req.RefreshToken = ""
+  · simp only [ht, if_true] at h; cases h
+  · simp only [ht, if_false] at h
+    cases ha : authorizeRefreshSpec now req p with
+    | error e => simp only [ha] at h; cases h
+    | ok rc =>
+      obtain ⟨r, c'⟩ := rc
+      simp only [ha] at h
+      by_cases hid : c'.id ≠ r.clientID
+      · rw [if_pos hid] at h; cases h
+      · rw [if_neg hid] at h
+        cases hv : scopesSpec req.Scopes r with
+        | error e => simp only [hv] at h; cases h
+        | ok r1 =>
+          simp only [hv] at h
+          cases h
+          exact ⟨r, ht, rfl, by simpa using hid, hv⟩
 
 /-- Provider router: a refresh goes through only for the token's own client, registered for the grant,
     and only narrows the scope -/
@@ -84,26 +357,11 @@ theorem validateRefreshTokenRequest_ok {now req p r' c} (h : ValidateRefreshToke
     ∃ r, p.store.TokenRequestByRefreshToken req.RefreshToken = .ok r ∧ c.id = r.clientID ∧
       Const.GrantTypeRefreshToken ∈ c.grants ∧ sub r'.scopes r.scopes ∧ r'.subject = r.subject ∧
       r'.audience = r.audience ∧ r'.authTime = r.authTime := by
-  unfold ValidateRefreshTokenRequest at h
-  simp only [OPClient.GetID, RefreshReq.GetClientID] at h
-  split at h; · simp at h
-  cases hac : AuthorizeRefreshClient now req p with
-  | error e => simp [hac] at h
-  | ok rc =>
-    obtain ⟨r, c'⟩ := rc
-    simp only [hac] at h
-    by_cases hid : (c'.id != r.clientID) = true
-    · simp [hid] at h
-    · simp only [hid, Bool.false_eq_true, if_false] at h
-      cases hv : ValidateRefreshTokenScopes now req.Scopes r with
-      | error e => simp [hv] at h
-      | ok r1 =>
-        simp only [hv] at h
-        simp at h
-        obtain ⟨rfl, rfl⟩ := h
-        obtain ⟨h1, h2⟩ := authorizeRefreshClient_ok hac
-        obtain ⟨s1, _, s3, s4, s5, _⟩ := validateRefreshTokenScopes_ok hv
-        exact ⟨r, h1, by simpa using hid, h2, s1, s3, s4, s5⟩
+  rw [validateRefreshTokenRequest_eq] at h
+  obtain ⟨r, _, ha, hid, hv⟩ := validateRefreshSpec_ok h
+  obtain ⟨h1, h2, _⟩ := authorizeRefreshSpec_ok ha
+  obtain ⟨s1, _, s3, s4, s5, _⟩ := scopesSpec_ok hv
+  exact ⟨r, h1, hid, (C04.validateGrantType_iff (now := now)).1 h2, s1, s3, s4, s5⟩
 
 /-- over ANY chain of scope requests the granted scope never grows -/
 theorem scope_chain_narrows (now : Int) (reqs : List (List String)) (r0 : RefreshReq) :
